@@ -51,15 +51,23 @@ Theorem C06_roundtrip : forall t, wf_table' t = true ->
 Proof. exact roundtrip_full. Qed.
 
 (* the auxiliary-entry conjunct of wf_table' against C16's model of write_key (AuxModel.accepts with the parameters read from
-   the current source tree): every accepted (key, value) satisfies aux_entry_ok, except EXTNAME / HDUNAME (known finding) and
-   HIERARCH keys whose card does not fit in the standard form; the second theorem says which accepted entries those are:
+   the current source tree): every accepted (key, value) satisfies aux_entry_ok, except
+   HIERARCH keys whose card does not fit in the standard form (EXTNAME / HDUNAME, once a second exception — the fixed finding
+   C06:aux-key:EXTNAME-shadows-KNOTSn — are rejected by write_key: C06_name_keys_reserved, over the translated list); the second theorem says which accepted entries those are:
    encoded value length = 67 - keylen (cfitsio writes "key= 'value'"), or keylen > 58 (the 8-character minimum is truncated) *)
 Theorem C06_write_key_accepted_entry_ok : forall ks vs,
   AuxModel.accepts Generated_aux.gen_params ks vs = true ->
-  str_eqb (lit ks) s_EXTNAME = false -> str_eqb (lit ks) s_HDUNAME = false ->
   ((length (lit ks) <= 8)%nat \/ (length (lit ks) + Nat.max 8 (enc_len (lit vs)) <= 66)%nat) ->
   aux_entry_ok (lit ks, lit vs) = true.
 Proof. exact write_key_accepted_entry_ok. Qed.
+(* the names fits_movnam_hdu compares (EXTNAME, failing that HDUNAME; its search starts at the primary HDU) are reserved in the
+   current source tree: no auxiliary entry of a wf_table' table — and nothing write_key accepts — can put them into the primary
+   header, so the primary HDU never answers to KNOTSn / EXTENTS *)
+Theorem C06_name_keys_reserved :
+  reserved s_EXTNAME = true /\ reserved s_HDUNAME = true /\
+  (forall ks vs, lit ks = s_EXTNAME \/ lit ks = s_HDUNAME -> AuxModel.accepts Generated_aux.gen_params ks vs = false) /\
+  (forall t name, wf_table' t = true -> name_matches name (primary_hdu t) = false).
+Proof. exact name_keys_reserved. Qed.
 Theorem C06_write_key_fit_gap : forall ks vs,
   AuxModel.accepts Generated_aux.gen_params ks vs = true -> (8 < length (lit ks))%nat ->
   (length (lit ks) + Nat.max 8 (enc_len (lit vs)) <= 66)%nat \/
@@ -192,6 +200,7 @@ Print Assumptions C06_wf_doc.
 Print Assumptions C06_roundtrip.
 Print Assumptions C06_write_key_accepted_entry_ok.
 Print Assumptions C06_write_key_fit_gap.
+Print Assumptions C06_name_keys_reserved.
 Print Assumptions C06_reload_compares_equal.
 Print Assumptions C06_roundtrip_compares_equal.
 Print Assumptions C06_nan_compares_unequal.
